@@ -15,13 +15,28 @@ VARIABLES d
 
 Ends == {"null", "int", "bool", "arr", "false", "zero", "arr0"}     \* the last three: the falsy / empty values of each kind (a parent is absent only when it is null)
 Defs == {"", "m", "+", "g", "s", "m+gs", "M", "G", "a", ">", "F", "mF"}     \* F: a FIELD named m (fields and methods are separate namespaces), mF: both a field m and a method m; M: m with two parameters, G: get without parameters (overriding with a different parameter count), a: a method named add (a Feeny spelling used as an ordinary name)
-Chains == UNION {[1..n -> Defs] : n \in 0..3}
+\* (operators with a parameter: TLC evaluates every parameterless constant definition when it starts, needed or not)
+Chains(maxdepth) == UNION {[1..n -> Defs] : n \in 0..maxdepth}
 Calls == {"m1", "m0", "m2", "plus", "and", "index", "setindex", "get", "set", "zz", "field", "fieldm", "eqnull", "ne5", "feq", "fneq", "add1", "plus0", "plus2", "lt3", "gt1", "ge1"}
 Kinds == {"var", "arg", "field", "elem", "this"}
-Dispatch == {<<"dispatch", e, c>> \o ch : e \in Ends, c \in Calls, ch \in Chains}
+Dispatch(maxdepth) == {<<"dispatch", e, c>> \o ch : e \in Ends, c \in Calls, ch \in Chains(maxdepth)}
 Alias == {<<"alias", target, k1, k2, mut>> : target \in {"obj", "arr"}, k1 \in Kinds, k2 \in Kinds, mut \in {"setfield", "setelem", "method"}}
 Value == {<<"value", v, k1, k2>> : v \in {"int", "bool", "null"}, k1 \in Kinds \ {"this"}, k2 \in Kinds \ {"this"}}
-Init == d \in Dispatch \cup Alias \cup Value
+\* quick tier (env STRIDE present): every descriptor with a chain of depth <= 1, all aliasing / value templates, and a sample (by position
+\* hash, shifted by OFFSET) of the deeper dispatch descriptors: 1/16 of depth 2, 1/160 of depth 3.  The sample is built from sampled chains,
+\* so that the full product (290 000 descriptors, 80 s) is only enumerated in the thorough tier.
+Quick == "STRIDE" \in DOMAIN IOEnv
+Offset == IF "OFFSET" \in DOMAIN IOEnv THEN CHOOSE k \in 0..199 : ToString(k) = IOEnv.OFFSET ELSE 0
+DefSeq == <<"", "m", "+", "g", "s", "m+gs", "M", "G", "a", ">", "F", "mF">>
+CallSeq == <<"m1", "m0", "m2", "plus", "and", "index", "setindex", "get", "set", "zz", "field", "fieldm", "eqnull", "ne5", "feq", "fneq", "add1", "plus0", "plus2", "lt3", "gt1", "ge1">>
+EndSeq == <<"null", "int", "bool", "arr", "false", "zero", "arr0">>
+Idx(seq, v) == CHOOSE i \in 1..Len(seq) : seq[i] = v
+ASSUME {DefSeq[i] : i \in 1..Len(DefSeq)} = Defs /\ {CallSeq[i] : i \in 1..Len(CallSeq)} = Calls /\ {EndSeq[i] : i \in 1..Len(EndSeq)} = Ends
+Chains3S(k) == {ch \in [1..k -> Defs] : (Idx(DefSeq, ch[1]) * 17 + Idx(DefSeq, ch[2]) * 31 + Idx(DefSeq, ch[3]) * 43) % 10 = Offset % 10}
+H2(x) == Idx(EndSeq, x[2]) * 5 + Idx(CallSeq, x[3]) * 11 + Idx(DefSeq, x[4]) * 17 + Idx(DefSeq, x[5]) * 3
+QuickDispatch == Dispatch(1)
+                 \cup {x \in {<<"dispatch", e, c>> \o ch : e \in Ends, c \in Calls, ch \in [1..2 -> Defs] \cup Chains3S(3)} : H2(x) % 16 = Offset % 16}
+Init == d \in (IF Quick THEN QuickDispatch ELSE Dispatch(3)) \cup Alias \cup Value
 Next == FALSE /\ UNCHANGED d
 Report == PrintT(<<"REPLAY", ToJson([d |-> d])>>)
 =============================================================================
